@@ -55,8 +55,8 @@ if __name__ == '__main__':
 # the pipeline proper
 # ------------------------------------------------------------------------------------------------
 TIERS = {
-    'quick': dict(scale=1, seeds=1, timeout=900),
-    'thorough': dict(scale=12, seeds=3, timeout=3000),
+    'quick': dict(scale=0.55, seeds=1, timeout=900, chunks=4),
+    'thorough': dict(scale=6, seeds=2, timeout=3000, chunks=12),
 }
 FLOOR_PROPS = ('C02', 'C03', 'C04', 'C05', 'C06', 'C08', 'C11', 'C13', 'C15', 'C16', 'C17')
 
@@ -68,51 +68,37 @@ def crash_clause(err):
     return 'C03.RunReturns_' + what
 
 
-def _pipeline(tier):
-    t0 = time.time()
+def _chunk(tier, ci, jobs):
+    """Runs and validates one chunk of configurations (cached on its own, so that an interrupted run resumes)."""
     T = TIERS[tier]
-    cfgs = F.quick_family(C.seed(), T['scale'])
-    jobs = []
-    for c in cfgs:
-        for s in range(T['seeds']):
-            jobs.append((len(jobs) + 1, c, C.seed() * 1009 + c['cid'] * 7 + s))
     out = C.parallel_map(_run, jobs)
     traces = [o[0] for o in out]
-    scen = {j[0]: {'cid': j[1]['cid'], 'family': j[1].get('family'), 'cfg': j[1], 'seed': j[2]} for j in jobs}
-    stage = C.stage_specs(C.scratch('floor'))
-    fails, nlines, wall = P.validate_traces(stage, 'FloorTrace', 'FloorTrace.cfg', traces, heap='4g', timeout=T['timeout'])
-    res = {'tier': tier, 'traces': len(traces), 'lines': nlines, 'validate_wall': round(wall, 1), 'configs': len(cfgs)}
-    fam = {}
+    stage = C.stage_specs(C.scratch('floor_%d' % ci))
+    fails, nlines, wall = P.validate_traces(stage, 'FloorTrace', 'FloorTrace.cfg', traces, heap='4g', timeout=T['timeout'], tag='c%d' % ci)
     kinds = {}
-    for j, o in zip(jobs, out):
-        f = j[1].get('family', '?')
-        fam[f] = fam.get(f, 0) + 1
+    for o in out:
         for ln in o[0]:
             k = ln['ev'].get('kind', ln['ev']['op'])
             kinds[k] = kinds.get(k, 0) + 1
-    res['families'] = fam
-    res['exercised'] = kinds
+    by = {}
     ndiv = 0
     divs = []
-    by = {}
     for tid, k, clause in fails:
         if clause.startswith('D.'):
-            if clause == 'D.StepFn' or clause == 'D.Init':
+            if clause in ('D.StepFn', 'D.Init'):
                 ndiv += 1
-                if len(divs) < 5:
-                    divs.append({'tid': tid, 'k': k, 'cid': scen[tid]['cid'], 'family': scen[tid]['family']})
+                if len(divs) < 3:
+                    divs.append({'tid': tid, 'k': k})
             continue
         by.setdefault(tid, []).append((k, clause))
-    res['spec_divergences'] = ndiv
-    res['divergence_samples'] = divs
-    vio = []
-    counts = {}
-    harness_errors = [(j[0], o[1]) for j, o in zip(jobs, out) if o[1] and o[1].startswith('HARNESS')]
-    res['harness_errors'] = harness_errors[:5]
+    harness_errors = []
     for j, o in zip(jobs, out):
-        if o[1] and not o[1].startswith('HARNESS'):
-            cl = crash_clause(o[1])
-            by.setdefault(j[0], []).append((len(o[0]), cl + '|' + o[1][:200]))
+        if o[1] and o[1].startswith('HARNESS'):
+            harness_errors.append((j[0], o[1]))
+        elif o[1]:
+            by.setdefault(j[0], []).append((len(o[0]), crash_clause(o[1]) + '|' + o[1][:200]))
+    vio = []
+    tr = {j[0]: o[0] for j, o in zip(jobs, out)}
     for tid, fl in sorted(by.items()):
         fl.sort()
         seen = set()
@@ -123,15 +109,52 @@ def _pipeline(tier):
             if clause in seen:
                 continue
             seen.add(clause)
-            counts[clause] = counts.get(clause, 0) + 1
-            if counts[clause] <= 25:
-                vio.append({'tid': tid, 'k': k, 'clause': clause, 'note': note, 'cid': scen[tid]['cid'],
-                            'family': scen[tid]['family'], 'cfg': scen[tid]['cfg'], 'seed': scen[tid]['seed'],
-                            'tags': tags(scen[tid]['cfg'], traces[tid - 1], k)})
+            vio.append({'tid': tid, 'k': k, 'clause': clause, 'note': note, 'tags': tags(None, tr[tid], k)})
+    return {'lines': nlines, 'wall': round(wall, 1), 'kinds': kinds, 'ndiv': ndiv, 'divs': divs, 'vio': vio,
+            'harness_errors': harness_errors[:3], 'first_events': [l['ev'] for l in traces[0][1:6]] if traces else []}
+
+
+def _pipeline(tier):
+    t0 = time.time()
+    T = TIERS[tier]
+    cfgs = F.quick_family(C.seed(), T['scale'])
+    jobs = []
+    for c in cfgs:
+        for s in range(T['seeds']):
+            jobs.append((len(jobs) + 1, c, C.seed() * 1009 + c['cid'] * 7 + s))
+    scen = {j[0]: {'cid': j[1]['cid'], 'family': j[1].get('family'), 'cfg': j[1], 'seed': j[2]} for j in jobs}
+    n = T['chunks']
+    parts = []
+    for ci in range(n):
+        sub = jobs[ci::n]
+        parts.append(P.cached('floor_chunk_%d_of_%d' % (ci, n), tier, lambda ci=ci, sub=sub: _chunk(tier, ci, sub)))
+    res = {'tier': tier, 'traces': len(jobs), 'lines': sum(p['lines'] for p in parts),
+           'validate_wall': round(sum(p['wall'] for p in parts), 1), 'configs': len(cfgs)}
+    fam = {}
+    for j in jobs:
+        f = j[1].get('family', '?')
+        fam[f] = fam.get(f, 0) + 1
+    kinds = {}
+    for p in parts:
+        for k, v in p['kinds'].items():
+            kinds[k] = kinds.get(k, 0) + v
+    res['families'] = fam
+    res['exercised'] = kinds
+    res['spec_divergences'] = sum(p['ndiv'] for p in parts)
+    res['divergence_samples'] = [dict(d, cid=scen[d['tid']]['cid'], family=scen[d['tid']]['family'])
+                                 for p in parts for d in p['divs']][:5]
+    res['harness_errors'] = [e for p in parts for e in p['harness_errors']][:5]
+    counts = {}
+    vio = []
+    for p in parts:
+        for x in p['vio']:
+            counts[x['clause']] = counts.get(x['clause'], 0) + 1
+            if counts[x['clause']] <= 25:
+                sc = scen[x['tid']]
+                vio.append(dict(x, cid=sc['cid'], family=sc['family'], cfg=sc['cfg'], seed=sc['seed']))
     res['clause_counts'] = counts
     res['violations'] = vio
-    res['samples'] = [{'cfg': cfgs[0], 'first_events': [l['ev'] for l in traces[0][1:6]]},
-                      {'cfg': cfgs[len(cfgs) // 2]}]
+    res['samples'] = [{'cfg': cfgs[0], 'first_events': parts[0]['first_events']}, {'cfg': cfgs[len(cfgs) // 2]}]
     res['wall'] = round(time.time() - t0, 1)
     return res
 
@@ -238,28 +261,56 @@ def run(prop, tier):
     return lines, rc
 
 
-DESIGN = {'quick': dict(every=4, scale=1, timeout=1500, sim=600, depth=120),
-          'thorough': dict(every=1, scale=2, timeout=6000, sim=6000, depth=160)}
+DESIGN = {'quick': dict(every=3, scale=1, timeout=40, sim=300, depth=120, group=4),
+          'thorough': dict(every=1, scale=2, timeout=600, sim=6000, depth=160, group=4)}
 
 
 def _design(tier):
+    """Exhaustive TLC runs of FloorMC over the design family, in groups of a few configurations (one JVM per
+    group, all groups in parallel, each under a time limit): a group whose state space is too large for the
+    limit is reported as not exhausted instead of holding up the check."""
+    from concurrent.futures import ThreadPoolExecutor
     from . import floor_mc as M
     D = DESIGN[tier]
     cfgs = M.design_family(C.seed(), D['scale'])[::D['every']]
     for i, c in enumerate(cfgs):
         c['cid'] = i + 1
-    stage = C.stage_specs(C.scratch('floor_design'), {'FloorCfgs.tla': M.render_cfgs(cfgs)})
-    r = P.design_check(stage, 'FloorMC', 'FloorMC.cfg', timeout=D['timeout'], heap='12g')
-    res = {'states': r.distinct, 'transitions': r.generated, 'depth': r.depth, 'wall': round(r.wall, 1),
-           'configurations': len(cfgs), 'cfg': 'FloorMC.cfg',
-           'what': 'FloorMC: every tie-break order of every configuration of the design family; all observer clauses '
-                   'that do not need recorded datapoints (C02 C03 C04 C05 C06 C08 C11 C13 C17) hold on every step'}
+    gsize = D['group']
+    groups = [cfgs[i:i + gsize] for i in range(0, len(cfgs), gsize)]
+
+    def one(gi):
+        stage = C.stage_specs(C.scratch('floor_design_%d' % gi), {'FloorCfgs.tla': M.render_cfgs(groups[gi])})
+        r = C.run_tlc(stage, 'FloorMC', 'FloorMC.cfg', workers=2, timeout=D['timeout'], heap='3g')
+        if r.rc == -9:
+            return gi, None, stage
+        C.tlc_machinery_ok(r, 'FloorMC group %d' % gi)
+        if r.invariant_violated or r.property_violated or not r.finished:
+            raise C.MachineryError('design-level check FloorMC did not pass cleanly (group %d):\n%s'
+                                   % (gi, '\n'.join(r.out.splitlines()[-60:])))
+        return gi, r, stage
+    done = []
+    with ThreadPoolExecutor(max(1, C.NCPU // 2)) as ex:
+        for x in ex.map(one, range(len(groups))):
+            done.append(x)
+    fin = [x for x in done if x[1] is not None]
+    if not fin:
+        raise C.MachineryError('no group of the design family could be exhausted within the time limit')
+    res = {'states': sum(x[1].distinct for x in fin), 'transitions': sum(x[1].generated for x in fin),
+           'depth': max(x[1].depth for x in fin), 'wall': round(max(x[1].wall for x in fin), 1),
+           'configurations': sum(len(groups[x[0]]) for x in fin), 'groups_exhausted': len(fin),
+           'groups_not_exhausted_within_limit': len(done) - len(fin), 'cfg': 'FloorMC.cfg',
+           'what': 'FloorMC: every tie-break order of every configuration of the exhausted groups of the design family; '
+                   'all observer clauses that do not need recorded datapoints (C02 C03 C04 C05 C06 C08 C11 C13 C17) hold on every step'}
+    stage = fin[0][2]
     # behaviours of the closed specification (a sample of the completed runs TLC found), replayed on the
     # real package with the dispatch order forced
     beh = []
-    for t in r.tuples('HIST'):
-        beh.append((t[1], [tuple(x) for x in json.loads(t[2])]))
+    for gi, r, _ in fin:
+        for t in r.tuples('HIST'):
+            beh.append((gi * gsize + t[1], [tuple(x) for x in json.loads(t[2])]))
     beh = beh[:D['sim']]
+    for c in cfgs:
+        pass
     jobs = [(i + 1, cfgs[cid - 1], hist) for i, (cid, hist) in enumerate(beh)]
     out = C.parallel_map(_replay_forced, jobs)
     traces = [o[0] for o in out]
@@ -287,7 +338,7 @@ def _replay_forced(job):
             pe = tr.proj_event(e)
             if pe[3] == 'term':
                 return e if len(group) == 1 else None
-            if pe[2] == want[0] and pe[3] == want[1]:
+            if pe[2] == want[0] and pe[3] == want[1] and (len(want) < 3 or pe[5] == want[2]):
                 state['i'] += 1
                 return e
         state['div'] = 1
